@@ -29,6 +29,10 @@ def reductions(sig):
         yield plain, 'no segment'
         for s2, a in reductions(plain):
             yield s2, a
+    mr = re.match(r'rewrite=([\w\-<>]+)\+([\w\-<>]+) ', sig)     # C19 pairs of rewrites: a pair containing a listed single rewrite
+    if mr:
+        for single in mr.groups():
+            yield 'rewrite=%s ' % single + sig[mr.end():], single
     mo = re.search(r' o16/a16(?= )', sig)          # C11 names the decoded operand/address size instead of the prefixes
     if mo:
         for alt in (' o16/a32', ' o32/a16', ' o32/a32'):
